@@ -5,3 +5,4 @@ pub mod c09;
 pub mod c07;
 pub mod c20;
 pub mod c15;
+pub mod c01;
